@@ -94,7 +94,7 @@ def graph_assume(a, k, ps, nfmax, kinds, orders):
 
 
 def vft_assume(a, ps):
-    return [a[0] == ps, z3.ULE(a[1], 4), z3.ULE(a[2], 4), z3.ULE(a[3], 4), z3.ULE(a[4], 4), z3.ULE(a[5], 1)]
+    return [a[0] == ps, z3.ULE(a[1], 4), z3.ULE(a[2], 4), z3.ULE(a[3], 4), z3.ULE(a[4], 4), z3.ULE(a[5], 1), z3.ULE(a[6], 1)]
 
 
 def slices(tier, rng):
@@ -111,12 +111,15 @@ def slices(tier, rng):
                      ([z3.Or(a[7 + i] == 0, a[7 + i] == 1, a[7 + i] == 2, a[7 + i] == 3, a[7 + i] == 4, a[7 + i] == 8) for i in range(2)] if tier == 'quick' else []),
                      opts={'map_order': order_hook_global, 'must_reach': ['ok/ok']}, ctx={'t': 'scope'}))
     for ps in ((4,) if tier == 'quick' else (4, 8)):
-        out.append(Slice('vft-ps%d' % ps, 't_order_vft', 6, lambda a, ps=ps: vft_assume(a, ps) + [a[5] == 0] + ([a[4] == 0, a[3] == 0] if tier == 'quick' else []),
+        out.append(Slice('vft-ps%d' % ps, 't_order_vft', 7, lambda a, ps=ps: vft_assume(a, ps) + [a[5] == 0, a[6] == 0] + ([a[4] == 0, a[3] == 0] if tier == 'quick' else []),
                          opts={'map_order': order_hook, 'must_reach': ['ok/ok']}, ctx={'t': 'vft'}))
         # an imported module declares a type named like a generated vftable type
-        out.append(Slice('vft-import-ps%d' % ps, 't_order_vft', 6,
-                         lambda a, ps=ps: vft_assume(a, ps) + [a[5] == 1] + ([z3.Or(a[4] == 0, a[4] == 2), z3.Or(a[3] == 0, a[3] == 2), z3.ULE(a[1], 2), a[2] == 0] if tier == 'quick' else []),
+        out.append(Slice('vft-import-ps%d' % ps, 't_order_vft', 7,
+                         lambda a, ps=ps: vft_assume(a, ps) + [a[5] == 1, a[6] == 0] + ([z3.Or(a[4] == 0, a[4] == 2), z3.Or(a[3] == 0, a[3] == 2), z3.ULE(a[1], 2), a[2] == 0] if tier == 'quick' else []),
                          opts={'map_order': order_hook_global, 'must_reach': ['ok/ok']}, ctx={'t': 'vft'}))
+        # the module declares a type named like a generated vftable type: rejected in every order
+        out.append(Slice('vft-collision-ps%d' % ps, 't_order_vft', 7, lambda a, ps=ps: vft_assume(a, ps) + [a[5] == 0, a[6] == 1, z3.ULE(a[1], 1), z3.ULE(a[2], 1), a[3] == 0, z3.Or(a[4] == 0, a[4] == 3)],
+                         opts={'map_order': order_hook, 'must_reach': ['err/err']}, ctx={'t': 'vft'}))
     return out
 
 
@@ -170,4 +173,5 @@ def describe(template, args):
             'pub type A { vftable { pub fn f(&self); }, pub x: *const u8 }\npub type B { pub y: *const u8%s }\n'
             'impl B { #[address(16)] pub fn g(&self, p: %s); }\npub type C { vftable { pub fn h(&self, q: %s); }, pub z: *const u8 }\n'
             '#[address(32)] pub extern ev: %s;%s') % (a[0], ', pub w: %s' % K.get(a[4], '?') if a[4] else '', K.get(a[1], '?'), K.get(a[2], '?'), K.get(a[3], '?'),
-                                                     '\nuse n;   // module n: pub type AVftable { pub n0: *const u8, pub n1: *const u8 }' if len(a) > 5 and a[5] else '')
+                                                     ('\nuse n;   // module n: pub type AVftable { pub n0: *const u8, pub n1: *const u8 }' if len(a) > 5 and a[5] else '') +
+                                                     ('\npub type CVftable { pub u: *const u8 }' if len(a) > 6 and a[6] else ''))
